@@ -636,6 +636,32 @@ for _op, _f in (("if_else", r_if_else), ("where", r_where)):
                 lambda p, _op=_op: call(_op, c("a"), lit(1), lit(2)),
                 lambda a, _f=_f: _f(a, 1, 2),
             ),
+            # branches of pure bool dtype with a missing condition (the result must still be missing / else-branch)
+            Variant(
+                "bool_branches",
+                [B("a", null=True), B("x"), B("y")],
+                lambda p, _op=_op: call(_op, c("a"), c("x"), c("y")),
+                _f,
+            ),
+            # compound conditions: the condition text is reused inside the translation (CASE WHEN c ... WHEN NOT c ...)
+            Variant(
+                "and_cond",
+                [B("a"), B("b"), F("x"), F("y")],
+                lambda p, _op=_op: call(_op, call("and", c("a"), c("b")), c("x"), c("y")),
+                lambda a, b, x, y, _f=_f: _f(bool(a) and bool(b), x, y),
+            ),
+            Variant(
+                "or_cond",
+                [B("a"), B("b"), F("x"), F("y")],
+                lambda p, _op=_op: call(_op, call("or", c("a"), c("b")), c("x"), c("y")),
+                lambda a, b, x, y, _f=_f: _f(bool(a) or bool(b), x, y),
+            ),
+            Variant(
+                "cmp_cond",
+                [F("u"), F("v"), F("x"), F("y")],
+                lambda p, _op=_op: call(_op, call(">", c("u"), c("v")), c("x"), c("y")),
+                lambda u, v, x, y, _f=_f: _f(u > v, x, y),
+            ),
         ],
     )
 
